@@ -35,13 +35,14 @@ def snapshot(root, exclude):
     return out
 
 
-def to_node(n, outdir, i=[0]):
+def to_node(n, outdir, i=None):
+    i = i if i is not None else [0]
     tg = {"up": b"..", "upup": b"../..", "absout": outdir.encode(), "a": b"a"}[n["tgt"]]
     i[0] += 1
     base = {"name": NAME[n["name"]], "mode": 0o777 if n["kind"] != "file" else 0o4755, "uid": 1234, "gid": 4321, "mtime": 86400 * (i[0] % 300),
             "xattrs": {b"user.c06": b"x"}}
     if n["kind"] == "dir":
-        return dict(base, kind="dir", children=[to_node(k, outdir) for k in n["kids"]])
+        return dict(base, kind="dir", children=[to_node(k, outdir, i) for k in n["kids"]], raw_order=True)
     if n["kind"] == "file":
         return dict(base, kind="file", data=b"PWNED by file %d\n" % i[0])
     return dict(base, kind="slink", target=tg)
@@ -91,13 +92,14 @@ def run(tier):
     cfg = work + "/u.cfg"
     write_cfg(cfg, spec="Spec", constants=base, invariants=["Confined"], deadlock=False)
     r = run_tlc("Unpack", cfg, workers=16, timeout=1800, heap="12g")
-    ev.tlc(r, "Unpack (all forests of <=2 entries + child)")
+    ev.tlc(r, "Unpack (forests: <=2 top entries with <=1 child, plus two-entry directories below the top level)")
     if not r["ok"]:
         print("MODEL-FAILURE: Unpack violates %s" % r["violated"])
         ev.write()
         return 2
     devres = {}
     witnesses = []
+    emitted = []
     for dev in ["SkipDupCheck", "NoSanityInCreate", "NoSanityInFill"]:
         c = dict(base)
         c[dev] = True
@@ -107,6 +109,18 @@ def run(tier):
         devres[dev] = bool(r["violated"])
         if r["violated"]:
             witnesses.append((dev, r["trace"][0]["forest"]))
+        # every forest for which this barrier is the only protection (TLC emits the "bad" ones)
+        c["Emit"] = True
+        write_cfg(cfg, spec="Spec", constants=c, invariants=["EmitOK"], deadlock=False)
+        r = run_tlc("Unpack", cfg, workers=16, timeout=900, heap="12g")
+        em = [x["forest"] for x in bpbind.parse_emitted(r["out"])]
+        ev.set("forests_only_protected_by_%s" % dev, len(em))
+        rng.shuffle(em)
+        # stratify: nested shapes (two entries below the top level) first, they are the rarer ones
+        nested = [f for f in em if any(len(n["kids"]) > 1 or any(k["kids"] for k in n["kids"]) for n in f)]
+        flat = [f for f in em if f not in nested] if len(em) < 20000 else em
+        cap = 400 if tier == "quick" else 20000
+        emitted += [(dev, f) for f in nested[:cap]] + [(dev, f) for f in flat[:cap]]
     ev.set("deviations", devres)
     if not all(devres.values()):
         print("SELF-CHECK-FAILED: deviation without counterexample: %s" % devres)
@@ -123,7 +137,8 @@ def run(tier):
     danger = [p for p in pairs if p[0]["name"] == p[1]["name"] or (p[0]["kind"] == "link" and p[1]["kind"] == "dir")]
     nsel = 500 if tier == "quick" else 6000
     forests += [list(p) for p in danger[:nsel // 2]] + [list(p) for p in pairs[:nsel // 2]]
-    forests = [list(w[1]) for w in witnesses] + forests
+    forests = [list(w[1]) for w in witnesses] + [f for _, f in emitted] + forests
+    ev.set("emitted_forests_replayed", len(emitted))
     flagsets = [[], ["--chmod", "--chown", "--set-times", "--set-xattr"], ["--chmod"], ["--chown", "--set-times"]]
     jobs = [(i, f, flagsets[i % len(flagsets)]) for i, f in enumerate(forests)]
 
